@@ -92,6 +92,7 @@ def _append_external_modules_to_module_list(
     if exclude_external_libraries:
         return all_modules
 
+    internal_modules = set(all_modules)
     external_imports = [
         i
         for i in imports
@@ -108,7 +109,11 @@ def _append_external_modules_to_module_list(
     if not file_filter.has_filter():
         return all_modules
 
-    return [module for module in all_modules if not file_filter.is_excluded(module)]
+    return [
+        module
+        for module in all_modules
+        if module in internal_modules or not file_filter.is_excluded(module)
+    ]
 
 
 def _remove_excluded_imports(
